@@ -750,10 +750,8 @@ def run_c04sweep(inp):
         kinds[key] = kinds.get(key, 0) + 1
         try:
             r = run_sweep_case(c)
-        except RecursionError:
-            r = {"error": "RecursionError"}
-        except Exception as e:
-            r = {"error": f"harness: {type(e).__name__}: {e}"}
+        except Exception as e:               # the library raised outside the guarded evaluations
+            r = {"error": f"{type(e).__name__}: {e}"[:300], "step": where_raised(e)}
         if r is not None:
             fails.append({"case": c, "why": r})
     return {"n": hi - lo, "total": len(cases), "kinds": kinds, "fails": fails[:50], "nfails": len(fails)}
@@ -852,10 +850,10 @@ def run_c05(inp):
                     held = outcome(lambda: tgt._get_value())
                     changed = not same_outcome(before, after)
                     if after[0] == "ok" and not same_outcome(after, held):
-                        problems.append(f"after {ref} changed through set_value, {tgt} holds {show(held)} but its expression evaluates to {show(after)}")
+                        problems.append(f"after {S(ref)} changed through set_value, {S(tgt)} holds {show(held)} but its expression evaluates to {show(after)}")
                         break
                     if changed and ds is not None and json.dumps(obs.term(ref)) not in kd:
-                        problems.append(f"changing {ref} changes the value ({show(before)} -> {show(after)}) but it is not a reported dependency")
+                        problems.append(f"changing {S(ref)} changes the value ({show(before)} -> {show(after)}) but it is not a reported dependency")
                         break
                     w.m.set_value(ref, val)
             except RecursionError:
@@ -1152,19 +1150,19 @@ def nested_stmt(m, w, st, obs, assign):
             rec["returned"] = ["expr", obs.term(res)]
             got = outcome(res._get_value)
             if not deferred:
-                problems.append(f"{tgt} {op}= plain operand on a location without a definition of its own returned the expression {obs.term(res)} instead of a value")
+                problems.append(f"{S(tgt)} {op}= plain operand on a location without a definition of its own returned the expression {obs.term(res)} instead of a value")
         else:
             rec["returned"] = ["val", canon(res)]
             got = ("ok", res)
             if deferred:
-                problems.append(f"{tgt} {op}= returned a plain value although the result must be an expression")
+                problems.append(f"{S(tgt)} {op}= returned a plain value although the result must be an expression")
     except RecursionError:
         raise
     except Exception as ex:
         rec["returned"] = ["val", canon_exc(ex)]
         got = ("exc", type(ex).__name__)
     if not problems and not same_outcome(want, got):
-        problems.append(f"{tgt} {op}= : expected {show(want)} (from its own {'definition' if own is not None else 'value'}), got {show(got)}")
+        problems.append(f"{S(tgt)} {op}= : expected {show(want)} (from its own {'definition' if own is not None else 'value'}), got {show(got)}")
     if assign and not problems:
         parent0 = None
         if len(st["target"]) > 1:
@@ -1192,7 +1190,7 @@ def nested_stmt(m, w, st, obs, assign):
                 return parent0[key]
             want = outcome(store)
         if not same_outcome(want, after):
-            problems.append(f"after {tgt} {op}= ... the location holds {show(after)}, expected {show(want)}")
+            problems.append(f"after {S(tgt)} {op}= ... the location holds {show(after)}, expected {show(want)}")
     rec["oracle"] = problems or None
     return rec
 
@@ -1223,7 +1221,7 @@ def run_c04_nested(inp):
                 pr["expr"] = None if ex is None else obs.term(ex)
                 own = own_task(m, ref, obs)
                 if (ex is None) != (own is None) or (ex is not None and obs.term(ex) != obs.term(own.expr)):
-                    problems.append(f"{ref}._expr is {pr['expr']} but the task registered under that reference is "
+                    problems.append(f"{S(ref)}._expr is {pr['expr']} but the task registered under that reference is "
                                     f"{None if own is None else obs.term(own.expr)}")
                 pr["tasks"] = [obs.term(t) for t in ref._tasks]
                 pr["dependants"] = [obs.term(t) for t in ref._find_dependant_targets()]
@@ -1233,9 +1231,9 @@ def run_c04_nested(inp):
                 if gv[0] == "exc" and gv[1] == "AttributeError":
                     gv = ("exc", "LookupError")
                 if not same_outcome(gv, pv):
-                    problems.append(f"{ref}._value = {show(pv)} but _get_value() = {show(gv)}")
+                    problems.append(f"{S(ref)}._value = {show(pv)} but _get_value() = {show(gv)}")
                 if dv[0] == "ok" and not same_outcome(dv, pv):
-                    problems.append(f"{ref}._value = {show(pv)} but the container holds {show(dv)}")
+                    problems.append(f"{S(ref)}._value = {show(pv)} but the container holds {show(dv)}")
                 probes.append(pr)
             except RecursionError:
                 raise
@@ -1250,7 +1248,7 @@ def run_c04_nested(inp):
                 want = build_ref(ev["pexp"], w)
                 evals.append(obs.term(got))
                 if obs.term(got) != obs.term(want):
-                    problems.append(f"{at}._eval({ev['text']!r}) built {obs.term(got)}, the operators build {obs.term(want)}")
+                    problems.append(f"{S(at)}._eval({ev['text']!r}) built {obs.term(got)}, the operators build {obs.term(want)}")
             except RecursionError:
                 raise
             except Exception as ex:
@@ -1270,6 +1268,41 @@ def run_c04_nested(inp):
     return {"results": out, "unknown": sorted(obs.unknown)}
 
 
+def S(x):
+    """printed form of a reference for messages; printing is library code and may raise"""
+    try:
+        return str(x)
+    except Exception as ex:
+        return f"<unprintable {type(x).__name__}: {type(ex).__name__}>"
+
+
+def where_raised(ex):
+    """innermost frame of this file in the traceback: the step of the case that was running"""
+    import traceback
+    frames = [f for f in traceback.extract_tb(ex.__traceback__) if f.filename.endswith("refs_runner.py")]
+    if not frames:
+        return "?"
+    f = frames[-1]
+    return f"{f.name}:{f.lineno}: {(f.line or '').strip()[:120]}"
+
+
+def guarded(run_fn):
+    """Runs the cases one by one: whatever the library raises while a case runs
+    (construction, printing, hashing, evaluation, manager calls ...) is that case's
+    OUTCOME -- {"case_error": {exc, msg, step}} -- and never ends the runner."""
+    def wrapper(inp):
+        results, unknown = [], set()
+        for case in inp["cases"]:
+            try:
+                r = run_fn(dict(inp, cases=[case]))
+                results += r["results"]
+                unknown |= set(r["unknown"])
+            except Exception as ex:           # includes RecursionError, MemoryError
+                results.append({"case_error": {"exc": type(ex).__name__, "msg": str(ex)[:300], "step": where_raised(ex)}})
+        return {"results": results, "unknown": sorted(unknown)}
+    return wrapper
+
+
 def run_info(inp):
     subs = {}
     for n in dir(R):
@@ -1284,22 +1317,22 @@ def main():
     inp = json.load(sys.stdin)
     mode = inp["mode"]
     if mode == "c04":
-        res = run_c04(inp)
+        res = guarded(run_c04)(inp)
     elif mode == "c04inplace":
-        res = run_c04_inplace(inp)
+        res = guarded(run_c04_inplace)(inp)
     elif mode == "c04sweep":
         res = run_c04sweep(inp)
     elif mode == "c04case":
         try:
             res = {"why": run_sweep_case(inp["case"])}
-        except RecursionError:
-            res = {"why": {"error": "RecursionError"}}
+        except Exception as ex:
+            res = {"why": {"error": f"{type(ex).__name__}: {ex}"[:300], "step": where_raised(ex)}}
     elif mode == "c04nested":
-        res = run_c04_nested(inp)
+        res = guarded(run_c04_nested)(inp)
     elif mode == "c05":
-        res = run_c05(inp)
+        res = guarded(run_c05)(inp)
     elif mode == "c12":
-        res = run_c12(inp)
+        res = guarded(run_c12)(inp)
     elif mode == "info":
         res = run_info(inp)
     else:
